@@ -78,18 +78,18 @@ type Gen struct {
 // FindingKinds are the unit kinds that fall into a recorded defect class of the unchanged tree
 // (DESIGN.md §7); in-scope generators exclude them, witness generators use them.
 var FindingKinds = map[string]string{
-	"blockComment":  "D-C01-6",
-	"twoSingles":    "D-C01-2",
+	"blockComment":              "D-C01-6",
+	"twoSingles":                "D-C01-2",
 	"closureSigMultiBodySingle": "D-C01-5",
-	"deferArg":      "D-C03-3",
-	"goArg":         "D-C03-3",
-	"varFunc":       "D-C03-3",
-	"ifCondClosure": "D-C03-3",
-	"recvStmt":      "D-C03-1",
-	"caseComment":   "D-C03-4",
-	"labeledIfElse": "D-C03-5",
-	"multilineExpr": "D-C03-2",
-	"multilineCall": "D-C03-2",
+	"deferArg":                  "D-C03-3",
+	"goArg":                     "D-C03-3",
+	"varFunc":                   "D-C03-3",
+	"ifCondClosure":             "D-C03-3",
+	"recvStmt":                  "D-C03-1",
+	"caseComment":               "D-C03-4",
+	"labeledIfElse":             "D-C03-5",
+	"multilineExpr":             "D-C03-2",
+	"multilineCall":             "D-C03-2",
 }
 
 // InScope makes the generator avoid every recorded defect class.
